@@ -2,7 +2,7 @@
 from vlib import core, coord_common, worker_traces
 from vlib.props import C08 as _c08
 
-MODS = ['S4V.Props.C06', 'S4V.Props.CoordSpec', 'S4V.Props.WorkerProtoSpec', 'S4V.Props.PoolSpec']
+MODS = ['S4V.Props.C06', 'S4V.Props.CoordSpec', 'S4V.Props.WorkerProtoSpec', 'S4V.Props.PoolSpec', 'S4V.Props.CoordSkelSpec', 'S4V.Props.CoordSkelMutants']
 LEVEL_NOTE = ("Proved on the coordinator model of processing_loop (per-source FIFO channels of the capacity found in the source, wait condition, "
               "blocking select over un-filled channels, first-minimum print, channel removal): for EVERY schedule a finished run has printed merge(scripts) "
               "(confluence), the loop never leaves through the early-break path when every worker sends FileInfo first, some step is always enabled "
